@@ -1,128 +1,443 @@
 NOTES = ("Technique: machine-checked proof in Lean 4 of theorems about a hand-written executable model, tied to /repo on "
-         "every run by (a) constants/facts/tables regenerated from the Go source and (b) a differential correspondence "
-         "check replaying traces of the real implementation on the compiled model. See DESIGN.md.")
+         "every run by (a) inputs regenerated from the Go source - constants, syntactic facts, the error table "
+         "(harness/cmd/extract) and the DECISION layer translated mechanically from the Go AST with fixed-width semantics "
+         "(harness/cmd/gotrans -> lean/AtreeModel/Gen/Trans.lean, proved equal to the hand-written model by TransEq.*) - and "
+         "(b) a differential correspondence check replaying traces of the real implementation on the compiled model, plus "
+         "model-free oracles on the implementation. Theorem names and pinned statements: lean/obligations.json. See DESIGN.md 13.")
 
 NOT_APPLICABLE_REASON = {}
 
+# One entry per property.  text = what is proved (deciding theorems of lean/obligations.json, in plain words, with the
+# quantifier), what ties the model to the code, what is NOT covered; note = trusted base, partial aspects, findings and
+# observations (DESIGN.md 13.4) that touch the property; technique = the deciding method in one line.
 CLAIMS = {
- "C13": {
-  "text": "Proved in Lean for every tree satisfying the array / map invariants (several statements for ANY tree): each enumeration flavour yields exactly toList - arrays in index order, maps in the canonical digest order with full collisions in insertion order; range iteration is the slice and invalid ranges get the exact error; the loaded-value iterators equal toList when everything is loaded and yield a Sublist for any set of loaded slabs; bulk pop is the reverse; overwriting the current element during mutable iteration neither skips nor repeats. Tie: ~2800 iterator runs per seed replayed on the model incl. partial loads read from the real storage.",
-  "design_ref": "DESIGN.md 7/C13, 13",
-  "note": "Partial: mutation of nested containers during iteration is oracle-only; map read-only iteration needs the slab-identifier clause MapIdsOk, which is proved preserved by every map operation and discharged for every history from NewMap (C13.map_ro_iter_history).",
-  "technique": "Lean 4 proofs over transcribed iterator state machines (structural recursion / bounded fuel) + iterator-output correspondence with partial loads",
+ "C01": {
+  "text": ("Lean theorems C01.get/insert/set/remove/pop/count/setType_refines: for EVERY legal slab size T (256..32768), every array "
+           "satisfying the invariant ArrInv (preserved: C05), every position and every value of size >= 1 (values above the inline limit "
+           "are externalised) the array model - a line-by-line transcription of array.go, array_data_slab.go, array_metadata_slab.go incl. "
+           "split, merge, lend / borrow, root split and promotion - answers like List.insertIdx / set / eraseIdx / reverse; in-range "
+           "requests succeed, others return exactly index-out-of-bounds, root ID and type are unchanged. History level with no "
+           "hypothesis left (C01H.run_refines, run_refines_prefix, inrange_no_error): for EVERY list of requests issued to a new array the "
+           "answers (large values read back through their slab) are those of the List specification, the root ID stays (address, 1), ArrInv "
+           "holds after every prefix, and the only errors are index-out-of-bounds and the 2^32-1 element limit. Arrays nested in / "
+           "holding containers: C10Total.arr*_total / *_errors, C10Hist.history_progress / history_no_internal_failure (after ANY history "
+           "of the nested-container model an in-range request through a held handle succeeds; an error is exactly the argument error), "
+           "history_index_shifts_never_fail. C01P.*: the slice expressions of index-slab Merge / LendToRight / BorrowFromRight that can panic "
+           "in Go carry their bounds; the panic condition is exact and unreachable under the tree invariant. "
+           "Tie: childSlabIndexInfo is translated from the Go AST on every run (Gen/Trans.lean, TransEq.*_eq_model, safe_childSlabIndexInfo); "
+           "streams array, persist, arrmeta -> array, settings -> settings, nested -> world: every operation replayed, observations, "
+           "net storage effects and dumps of every stored slab identical. Oracle: shadow slice, emptied containers reused."),
+  "design_ref": "DESIGN.md 7/C01, 13",
+  "note": ("Trusted: Lean kernel; statements in Props/C01*.lean, C10Total.lean, C10Hist.lean; extractor + gotrans; correspondence harness. Values are "
+           "opaque payloads with a size (the caller's Value / Storable contract is modelled by toStorable); Go slices and uint32 arithmetic as "
+           "List / Nat (no wrap-around under the invariant; proved for the translated functions only). insert_refines assumes count < 2^32-1; "
+           "at that point the code's dedicated error is reproduced by the model. Fixed finding F4 (PopIterate left mutableElementIndex "
+           "populated) is what history_index_shifts_never_fail now excludes."),
+  "technique": "Lean 4 refinement proof (B+-tree model -> List, per operation and per history) + translated routing function + per-operation model / implementation correspondence",
  },
  "C02": {
-  "text": "Lean theorems prove that the map model (a transcription of map.go, map_data_slab.go, map_metadata_slab.go, map_elements_hashkey.go, map_elements_nokey.go, map_element.go: sorted digest tables, inline / external collision groups, last-level lists, split / merge / lend / borrow, routing by first digest, root split and promotion) refines dictionary operations for EVERY digest function, every legal slab size, every number of digest levels: returned values, previous values, removed pairs, count, key-not-found exactly for absent keys, and preserves the map invariant. Tied to the code by replaying every operation of histories with real digests, the pooled digester under genuine collisions and adversarial digest tables, comparing observations, storage effects and structural dumps incl. collision-group slabs.",
+  "text": ("Lean theorems C02.inv_new, get/has/set/remove/pop/count/setType_refines, set_refines_any: for EVERY legal T, EVERY digest function that is "
+           "a function of the key (any hash distribution), every number of digest levels and every map satisfying MapInv, the map model (transcription "
+           "of map.go, map_data_slab.go, map_metadata_slab.go, map_elements_hashkey.go, map_elements_nokey.go, map_element.go: sorted digest tables, "
+           "inline / external collision groups, last-level lists, split / merge / lend / borrow, routing by first digest, root split and promotion) "
+           "answers like an association-list dictionary: value, previous value, removed pair, count; key-not-found exactly for absent keys; the only "
+           "other refusal of Set is the collision limit for a NEW key; MapInv, root ID, type and seed preserved. C02.run_refines: for EVERY list of "
+           "requests to a new map the answers are a dictionary history and MapInv holds after every prefix (no hypothesis on the state). "
+           "Dig.real_digester_instantiates_digestFn / digests_respect_equality: the model of basicDigester (hash functions uninterpreted) yields such a "
+           "digest function for any hash-input provider respecting key equality. Maps nested in containers: C10Total.map*_total / *_errors, "
+           "C10Hist.history_progress. Tie: the three binary searches of the index slab are translated from the Go AST (Gen/Trans.lean, "
+           "TransEq.MapMetaDataSlab_*_eq_model); streams map, mapcollide, mpersist, mapmeta, mapspill -> driver map (real digests, pooled digester under "
+           "genuine collisions, adversarial tables; every (sibling configuration, function) pair of index-slab merge / rebalance is a required "
+           "branch), digester -> digester. Oracle: Go map. Keys ABOVE the inline key limit are outside model and theorems: stream mapbigkey decides "
+           "them on the implementation alone."),
   "design_ref": "DESIGN.md 7/C02, 13",
-  "note": "Trusted: Lean kernel; MapInv.lean / C02.lean statements; correspondence harness. Keys up to the inline key limit; nested containers as values: C10.",
-  "technique": "Lean 4 refinement proof (hash-indexed B+tree with collision groups -> dictionary), induction on digest levels and tree depth + per-operation correspondence",
- },
- "C12": {
-  "text": "C02's theorems already hold for arbitrary collisions on any level. Additionally proved: a NEW key whose first-level group already holds more than the limit is refused with the collision-limit error (no new state), updates and inserts with room are accepted, iteration order is the ascending lexicographic digest order with full collisions in insertion order; the shapes of collision groups are part of the invariant. Tie: adversarial digest tables with limits 0..3 and 255 replayed on the model.",
-  "design_ref": "DESIGN.md 7/C12, 13",
-  "note": "Trusted: as C02. The limit is read per run through the verif hook.",
-  "technique": "Lean 4 proof over the collision-group model for all digest assignments + adversarial-digest correspondence",
- },
- "C06": {
-  "text": "Proved in Lean for a byte-exact model of the encoders (elements of every CBOR head width, references, type info, extra data, array data slabs root/non-root, array index slabs, large-value slabs): encoded length = reported size + extra data, minus exactly 16 bytes for an omitted empty sibling link; a decoded slab reports the size of the slab that produced the register; no uint16 truncation under the C05 invariant. The model's bytes are compared with EncodeSlab's bytes for every slab of every generated history. The byte model also covers map data / index / collision-group slabs, general storables (wrappers, inlined arrays and maps at any depth), type-info references and compact maps: the length law is proved for all of them (enc_len_stor/_elements/_mdata/_mindex/_adata/_storableG; '<=' for the compact-map exception) and every ENC line of the stream is compared byte for byte. Bulk-built containers (batch stream) are included. Partial: the shared inlined-extra-data section's own length is compared by correspondence, not by a theorem.",
-  "design_ref": "DESIGN.md 7/C06, 13",
-  "note": "Trusted: Lean kernel; Encode.lean transcription (validated byte-for-byte); harness value codec. Hypotheses DataOK/MetaOK follow from C05.",
-  "technique": "Lean 4 proof over a byte-exact encoder model + byte-for-byte correspondence with EncodeSlab",
- },
- "C07": {
-  "text": "Proved in Lean: decode(encode s) = s and re-encoding is a fixpoint for array data / index / large-value slabs; the three header queries on the raw bytes are truthful (root flag, has-pointers, size-limit) with no hypothesis on the slab; trailing bytes after a v1 data or index slab are rejected. Tie: every register of every history is decoded by both sides and compared; hand-crafted v0 forms decode to the same slab. Also proved: exact round trip and re-encode fixpoint for map index slabs and map data / collision-group slabs (inline and external groups, last-level lists, wrappers; root / non-root). The nested stream additionally reads every container back from a brand-new storage and compares content and each container's own type info (type-info references among inlined siblings). Partial: the round trip of slabs WITH inlined children / the shared extra-data section / compact maps is checked by correspondence (model decode = Go decode, Go re-encode = register) on every register, not yet by a theorem.",
-  "design_ref": "DESIGN.md 7/C07, 13",
-  "note": "Trusted: as C06 plus Decode.lean transcription (validated on ~50k registers per run incl. malformed ones).",
-  "technique": "Lean 4 round-trip proof over byte-exact encoder/decoder models + register-level correspondence",
- },
- "C19": {
-  "text": "Proved in Lean: the transcribed decoders (DecodeSlab dispatch, array data and index slabs in both versions, large-value slabs, extra data, slab IDs, the three header queries, and the harness's storable decoder) never reach a 'panic' outcome for ANY byte string and any slab ID - every Go slice expression, fixed-offset read and make() carries its bounds condition - terminate by structural recursion, and allocate at most the input length. Tie: outcome class equal to the real DecodeSlab on ~30000 mutated registers per run; the transcribed CBOR validator is compared with the library. decode_never_panics now covers ALL slab kinds (map data / index / collision groups, inlined arrays / maps / compact maps, type-info references, wrappers). The allocation bound is proved for the array / large-value decoders (alloc_linear_flat); for the map decoders it is enforced on the implementation by the allocation oracle of the malformed streams. Panics inside the CBOR library / Go runtime are not modelled. Re-encoding a slab decoded from a mutated register is outside the property (observation O1 in DESIGN.md 13.4).",
-  "design_ref": "DESIGN.md 7/C19, 13",
-  "note": "Trusted: Decode.lean transcription, CBOR contract model (validated against the library).",
-  "technique": "Lean 4 totality / no-panic proof over a three-outcome decoder model + malformed-input differential runs",
- },
- "C09": {
-  "text": "Proved in Lean (arrays): the SlabStorage calls of insert/set/remove are a complete account of how the slab tree changed (changed or new slabs stored, departed slabs removed, nothing else touched), emptying an array removes every slab except the rewritten root, no slab is owned twice, allocated IDs are fresh; the graph-level characterisation of a healthy storage is C20's health_sound/complete. Maps: the same account for set / remove / popIterate including external collision-group slabs (C09Map.set/remove_effects_complete, pop_releases_all, allocated_ids_fresh, under distinct slab IDs MIdsOk, itself proved preserved). Inline<->standalone transitions and bulk pops through nested handles: tied by per-operation comparison of the net storage effect with the World model; on the implementation the health check runs with the exact expected root count and, at the end of every nested program, every container is disposed of with the deep-removal idiom and the storage must be empty.",
-  "design_ref": "DESIGN.md 7/C09, 13",
-  "note": "The premise 'the caller disposes of returned values' is implemented by the harness (DSP).",
-  "technique": "Lean 4 proof of effect-log completeness by induction on tree depth + effect-log correspondence + storage health oracle",
- },
- "C10": {
-  "text": "Proved in Lean for the value-level World model (one current handle per container): a child is inline exactly when it is a single slab that fits the slot's budget after wrappers, the parent element carries the size of the child's current form, the parent slot is refreshed by the notification, value IDs are stable under all five operations and both transitions, a handed-back child is standalone, index shifts are order independent; a handle obtained by lookup or mutable iteration gets exactly the closure the notification theorems assume (C10Get.*), reopening drops all closures. A single global invariant (WorldOk; WorldOk' = the same with 'closure parents are live' weakened, which is what survives bulk pops) (every container well-formed in its standalone or inlined form, parent element size = child's current form, inline exactly when it fits the slot, unique reference, index and closure bookkeeping consistent, acyclic) is proved preserved by EVERY operation of the nested-container model at any depth with array and map ancestors (C10W.worldOk_* / worldOk'_* for Insert, Set, Remove on arrays and maps, Get, reopen, SetType, New, PopIterate with or without kept children, and the caller's disposal; main induction notify_restores), together with the list-level result of the mutated container; the array core is re-proved for reference elements and inlined roots (C10W.*_refines_ref / _inlined). The model also covers PopIterate / SetType through nested handles (the two PopIterate defects this found are repaired: fixed: lines in known_findings.txt). Tie: ~20000 nested operations per run replayed on the model with nested structural dumps. The histories excluded by the hypothesis (two live handles to one container) violate the property on the real code: known findings F2/F2b, printed as KNOWN-FINDING.",
-  "design_ref": "DESIGN.md 7/C10, 8, 13",
-  "note": "Partial: persistence of child mutations composes with C03 by correspondence (commit+reload oracle), not by a Lean theorem; facts about Arr.set on reference elements are hypotheses (validated by correspondence).",
-  "technique": "Lean 4 proof over a model of the parent-callback protocol + nested-history correspondence; known-finding signatures for dual handles",
- },
- "C11": {
-  "text": "Proved in Lean: when the slot recorded by a child's callback no longer holds that child (index forgotten, key absent, or another value / another container in the slot) the notification changes NOTHING but the child's own callback - no container, no index table, no storage effect; removal forgets the index; a detached child is handed back as a reference to a standalone slab with unchanged value ID. Tie and oracle: nested stream with detach / replace-by-container / mutate-detached / re-attach; former parent's dump must be unchanged.",
-  "design_ref": "DESIGN.md 7/C11, 13",
-  "note": "Trusted: World.lean transcription (validated by correspondence). One current handle per container.",
-  "technique": "Lean 4 proof by control-flow unfolding of the callback model + detach/replace differential histories",
- },
- "C01": {
-  "text": "Lean theorems prove that the array model (a line-by-line transcription of array.go, array_data_slab.go, array_metadata_slab.go incl. split, merge, lend/borrow, root split and promotion, both routing branches) refines plain List operations: for EVERY legal slab size 256..32768, every history, every position and every element size (values larger than the inline limit are externalised), Get/Set/Insert/Remove/PopIterate return what the list returns, in-range requests never fail (the unreachable no-sibling and too-few-elements branches are proved unreachable), root ID and type are stable. The model is tied to the code by replaying every operation of generated histories and comparing observations, storage effects and full structural dumps.",
-  "design_ref": "DESIGN.md 7/C01, Appendix B",
-  "note": "Trusted: Lean kernel; ArrayInv.lean / C01.lean statements; correspondence harness. Values are opaque payloads with a size (the caller's Value/Storable contract is modelled); nested containers as elements: C10.",
-  "technique": "Lean 4 refinement proof (B+tree model -> List) by induction on tree depth + per-operation model/implementation correspondence",
- },
- "C05": {
-  "text": "Lean theorems prove that the array invariant ArrInv (every slab <= 1.5T, every non-root slab >= T/2, every element <= the inline limit, header copies / cumulative counts / sibling links exact, index root has >= 2 children, IDs fresh) holds initially and is preserved by every operation, for EVERY legal T; that a full slab holds >= 2 elements and two maximal elements fit; and that positional access and sequential traversal agree. Constants and derived limits are regenerated from source and compared exhaustively with the compiled package. Maps: the map invariant MapInv (sizes, bands, per-element inline limit, sorted unique first-level digests, index data = summary of the children, sibling chain, collision-group shape) holds initially and is preserved by set / remove / popIterate for EVERY legal T, every digest function and digest depth (map_inv_*), and the per-slab clauses of the property follow from it for every data and index slab (map_data_slabs_in_band, map_index_slab_wellformed, map_wellformed).",
-  "design_ref": "DESIGN.md 7/C05, Appendix B",
-  "note": "Trusted: Lean kernel; ArrayInv.lean; extractor (constants cross-checked against the compiled values for all 32513 thresholds).",
-  "technique": "Lean 4 invariant proof parametric in the slab size (omega over regenerated constants) + exhaustive threshold comparison + dump correspondence",
- },
- "C18": {
-  "text": "Proved in Lean: the category of every argument error (index/slice out of bounds, key not found: User; collision limit, undefined identifier, slab not found: Fatal) from the table regenerated from errors.go; an uncategorised error from a caller-supplied component becomes External and categorised ones pass through; a rejected array request leaves array, allocation counter and effect log unchanged, so a history with rejected requests ends in the same state as the history without them. Tie: every rejected request in the array and map streams must show an empty net storage effect and unchanged dumps on the real code; failures injected into comparator / hash-input provider / ledger reads must surface as External and leave no trace.",
-  "design_ref": "DESIGN.md 7/C18",
-  "note": "Trusted: extractor's reading of errors.go (constructor -> category wrapper), cross-checked by errors.As on every error the harness sees. Map-side no-trace is by C02's refinement theorems; nested ancestors by C10's stream.",
-  "technique": "Lean 4 proof (decide over regenerated error table; no-op lemma on the request step) + fault-injection differential runs",
+  "note": ("Trusted: Lean kernel; MapInv.lean / Props/C02*.lean statements; extractor + gotrans; correspondence harness. CircleHash64 / BLAKE3 are not modelled "
+           "(every key carries its digest vector). Values of any size >= 1 (externalised above the limit); nested containers as values: C10. Observation O10: a "
+           "caller-supplied digester with more than 8 levels builds groups that can never be committed (not a listed property)."),
+  "technique": "Lean 4 refinement proof (hash-indexed B+-tree with collision groups -> dictionary, all digest functions) + digester model + per-operation correspondence",
  },
  "C03": {
-  "text": "Lean theorems (storage level) prove that no operation other than a commit changes the ledger, that a successful commit followed by ANY commit-free history and a crash leaves a reopened storage showing exactly the commit-time view of every owned identifier, and that temporary-address slabs are never written, for every history. The container level is tied by correspondence: array model + storage state machine reproduce every decoded register after every commit and the reopened tree after every crash. Container level (E2E theorems): for EVERY history of array (and map) operations run against the storage state machine, the storage view is exactly the container's slabs plus its live large-value slabs (rep_history, from C09's effects_complete), the tree is determined by its slabs (load_slabs), and history -> successful commit of either kind -> reopen on a fresh storage -> loading through Retrieve returns the SAME container (commit_reopen_identity); without the commit the reopen returns the container as of the last commit (crash_reopen_last_commit); failed commits followed by a successful retry behave the same (failed_commit_then_retry). For arrays the codec hypothesis is discharged for the real byte format (keyed_codec_roundtrip, bytes_commit_reopen_identity, ledger_read_by_decodeSlab: DecodeSlab of every owner register = the slab of the array). Partial: for maps the byte-codec instance and the liveness of large-value slabs are not proved (map_rep_history_partial); nested containers rely on the World correspondence.",
-  "design_ref": "DESIGN.md 7/C03",
-  "note": "Trusted: as C15; plus the generated fact baseStoreCallers/baseRemoveCallers (only commit functions write the ledger).",
-  "technique": "Lean 4 proof over the storage state machine + regenerated source fact + model/implementation correspondence of committed registers",
+  "text": ("Storage level (C03.*, any codec with the round-trip property): no operation other than a commit changes the ledger "
+           "(only_commit_touches_ledger, uncommitted_never_reaches_ledger), a successful commit then ANY commit-free history then a crash shows, on a "
+           "reopened storage, exactly the commit-time view of every owned identifier (commit_durable_on_reopen, crash_recovers_last_commit; with failed "
+           "commit attempts in between: C14.crash_recovers_last_commit_despite_attempts), temporary-address slabs are never written; regenerated facts: "
+           "only the three commit functions call BaseStorage.Store / Remove. Container level (E2E.* arrays, E2EM.* "
+           "maps), for EVERY history of operations run against the storage state machine from a new container: the storage view is exactly the "
+           "container's slabs plus the large-value slabs created (rep_history, map_rep_history), history -> either commit -> reopen -> load "
+           "through Retrieve returns the SAME container (commit_reopen_identity), without the commit the container as of the last commit "
+           "(crash_reopen_last_commit). Byte level, for the transcribed real codec: bytes_commit_reopen_identity, ledger_read_by_decodeSlab and the map "
+           "versions - DecodeSlab of every owner register = the container's slab (hypotheses: values encodable, field widths). Nested containers: "
+           "C10Persist.history_persisted (history with commits anywhere, commit, reopen = heap of the reopened world). SlabIdB.lbs_step_refines / "
+           "real_codec_register_nonempty: LedgerBaseStorage refines a map in which an empty register is absent, and the codec never writes one. "
+           "Tie: streams persist -> array, mpersist -> map, storage -> storage, nested -> world, slabid -> slabid; every register decoded by a brand-new "
+           "storage after every commit. Oracles: reload + Verify; ledger call log empty between commits."),
+  "design_ref": "DESIGN.md 7/C03, 13",
+  "note": ("Trusted: as C15 (Ledger behaves as a map on non-empty registers; a failing call has no effect) plus the regenerated facts baseStoreCallers / "
+           "baseRemoveCallers / baseStorage* (syntactic). The general-codec theorems assume RoundTrip and NoEncodeFailure; both are discharged for the real "
+           "byte format on array and map slabs (keyed_codec_roundtrip, *_history_no_encode_failure). C10Persist covers steps that create no large-value slab; "
+           "a same-size mutation of an INLINED child of a multi-slab parent needs the explicit hypothesis DeepStored (probed on the real code)."),
+  "technique": "Lean 4 proof over the storage state machine composed with the container models and the byte codec + regenerated source facts + register-level correspondence",
  },
  "C04": {
-  "text": "Proved in Lean: the deterministic commit issues calls in strictly ascending (owner,index) order for every write set; its result is independent of worker count and goroutine schedule (message-passing pool model, any finishing schedule); the order-relaxed commit leaves the same ledger and issues the same multiset of calls; source premises regenerated (worker closures write-free, pools reset). NOT proved (runtime): Go map iteration order, sync.Pool reuse, process identity - exercised by running each history under 60 configurations and in a fresh process and requiring byte-identical registers.",
-  "design_ref": "DESIGN.md 7/C04",
-  "note": "Partial by nature: the theorem covers the logic (ordering, arrival-order invariance); runtime nondeterminism is validated by the multi-run oracle only.",
-  "technique": "Lean 4 proof (sortedness, schedule invariance of a message-passing pool model) + regenerated syntactic facts + multi-configuration byte comparison",
+  "text": ("Proved in Lean (logic): the deterministic commit issues its ledger calls in strictly ascending (owner, index) order for every write set and "
+           "fault plan (C04.fastcommit_order_sorted, lt_strict_total); its state, error and call log do not depend on worker count or finishing schedule "
+           "(fastcommit_schedule_invariant; C16.fastCommitPoolX_eq_fastCommit for the explicit channel model) nor on the iteration order of the write-set "
+           "map (sortedOwnedDeltaKeys_order_independent, fastcommit_independent_of_map_order); the order-relaxed commit leaves the same ledger and the "
+           "same multiset of calls (nondet_commit_same_final_ledger). Byte level (SlabIdB.*, TransEq.SlabID_Compare_eq_model): SlabID.Compare, translated "
+           "from the Go AST, is the numeric order the model sorts by. Shared extra data: entries appear in first-use order and duplicate type infos are "
+           "sorted byte-wise whatever the input order (extra_data_dedup_first_use_order, findDuplicateTypeInfo_spec / _perm). Pools: every finite "
+           "multi-user history of the digester pool and of the buffer pool, with arbitrary pool choices, gives each holder what a fresh object gives "
+           "(Dig.pooled_history_refines_spec, Buf.pooled_history_refines_spec); the map seed is a function of the root slab ID. Regenerated facts: "
+           "every range-over-map loop of the package is listed, the ones on encode / commit paths are exactly three reviewed ones "
+           "(no_unreviewed_map_range_*), worker closures write-free, pools reset before Put. NOT proved (runtime): real goroutine scheduling, Go map "
+           "iteration, sync.Pool, process identity - stream determ runs each history under 60 configurations and in a fresh process and requires "
+           "byte-identical registers and call logs; storage, map, slabid, digester are replayed on their drivers."),
+  "design_ref": "DESIGN.md 7/C04, 4.1, 13",
+  "note": ("Partial by nature: theorems cover ordering, arrival-order and map-order invariance of the MODEL; the review of the listed map loops is prose "
+           "(Props/SourceFactsDet.lean), the facts come from a go/ast walk without type checker (unresolved types must be empty). Hash functions "
+           "uninterpreted. Observation O6: 0 workers hang (C16.zero_workers_stuck); worker counts are read as >= 1."),
+  "technique": "Lean 4 proof (sortedness, schedule and map-order invariance, pool refinement) + regenerated call-graph facts + multi-configuration byte comparison",
+ },
+ "C05": {
+  "text": ("Arrays (C05.inv_new/insert/set/remove/popIterate/setType): the invariant ArrInv - size = prefix + sum of element sizes, every slab <= 1.5T, every "
+           "non-root slab >= T/2, every element <= the inline limit, header copies, cumulative counts and sibling links exact, an index root has >= 2 "
+           "children, slab IDs distinct - holds for a new array and is preserved by EVERY operation for EVERY legal T; "
+           "full_slab_has_two_elems, two_max_elems_fit; access_agree: positional access = sequential traversal. Maps "
+           "(map_inv_new/set/remove/popIterate/setType, every digest function and depth): MapInv preserved; the property's "
+           "per-slab clauses follow for every data and index slab (map_data_slabs_in_band, map_index_slab_wellformed: child headers = children, sorted "
+           "unique first digests, >= 2 children at the root; map_access_agree); map_history_wellformed: MapInv and the identifier clause "
+           "MapIdsOk after EVERY prefix of EVERY history from NewMap. Decision layer (TransEq.*, 52 theorems): IsFull / IsUnderflow / CanLendToLeft / "
+           "CanLendToRight of the four slab kinds, the split / lend / borrow loops of array data slabs and hkeyElements, index-slab split arithmetic, "
+           "setThreshold are TRANSLATED from the Go AST with uint32 wrap-around on every run (Gen/Trans.lean) and proved equal to "
+           "the Nat model under range hypotheses that follow from the invariant (safe_*); inputs where they differ are exhibited (*_differs_at) and "
+           "unreachable. C05V.*: ArrInv / MapInv imply that the transcribed VerifyArray / VerifyMap accept. "
+           "Tie: streams array, arrmeta, verifybad -> array; map, mapcollide, mapmeta, verifybadmap -> map; batch -> batch; "
+           "settings -> settings: dumps carry every header copy, count sum, size and link; directed index-slab programs decide the band predicates "
+           "on the exact boundary (required branches); all 32513 thresholds compared with the compiled package. Oracle: VerifyArray / VerifyMap."),
+  "design_ref": "DESIGN.md 7/C05, 13",
+  "note": ("Trusted: Lean kernel; ArrayInv.lean / MapInv.lean (definition of the invariants); extractor (constants cross-checked for all thresholds) + gotrans "
+           "(VIEW tables in targets.go). Slab sizes stay below 2^16 under the band theorems, so no uint16 / uint32 truncation. Nested containers: "
+           "the same invariants are clauses of WorldOk' (C10). Keys above the inline key limit: implementation-only (mapbigkey)."),
+  "technique": "Lean 4 invariant proof parametric in the slab size over regenerated constants + decision functions translated from the Go AST and proved equal to the model + dump correspondence",
+ },
+ "C06": {
+  "text": ("Proved in Lean for a byte-exact model of the encoders covering ALL seven slab kinds (array / map data and index slabs, collision-group slabs, "
+           "large-value slabs) with inlined arrays / maps / compact maps at any depth, wrappers, type-info references and the shared inlined-extra-data "
+           "section. C06.enc_len: for EVERY slab satisfying the field-width predicate SlabOKG, written bytes + 16 for an omitted empty sibling link + "
+           "bytes hoisted by compact maps = reported size + extra-data sections; the compact-map saving is an EXACT term (Slab.hoisted; "
+           "enc_len_stor_exact / _elements_exact / _mdata_exact / _adata_exact / _storableG_exact, zero without compact maps), so the written bytes are "
+           "never more than reported. elem_size_eq_enc_len: every CBOR head width. decoded_size_eq: the slab decoded from a register reports the size "
+           "of the slab that produced it. no_uint16_truncation under the C05 invariant. C07.encodeSlabE_ok_iff / _refuses_257: the model encoder has "
+           "exactly the error exits of the Go encoder (digest level above 8, more than 256 shared extra-data entries). Tie: streams codec -> codec, "
+           "batch -> batch, nested -> world: the model's bytes must EQUAL EncodeSlab's bytes for every slab stored, the exact law is evaluated with == and "
+           "the hypotheses as Booleans on every ENC line (hypothesis-not-met counters are errors). Oracle on the implementation: len(EncodeSlab) + "
+           "hoisted = ByteSize + sections - omitted link on every slab incl. every slab of the nested write set. Not covered: elements other than the "
+           "harness's value types (byte strings of every head width, references, one-level wrappers)."),
+  "design_ref": "DESIGN.md 7/C06, 13",
+  "note": ("Trusted: Lean kernel; Codec/Encode.lean transcription (validated byte for byte); harness value codec. SlabOKG (Codec/Hyp.lean, hypOK_iff) = "
+           "field widths, distinct keys in compact-eligible maps, < 8192 digests per group, <= 256 shared extra-data entries, nesting depth; for "
+           "standalone array slabs it follows from C05. Observation O8 (257+ extra-data entries: the encoder returns an ERROR, nothing is written) is "
+           "reproduced on every run and is not a violation."),
+  "technique": "Lean 4 proof of the exact length law over a byte-exact encoder model + byte-for-byte correspondence with EncodeSlab and evaluation of the law on every encoded slab",
+ },
+ "C07": {
+  "text": ("Proved in Lean: C07.decode_encode / reencode_fixpoint - for EVERY slab of any of the seven kinds satisfying SlabOKG, decoding its encoding yields "
+           "normSlab s and re-encoding that yields the identical bytes; normSlab s = s unless a compact map is written (normSlab_eq_of_noCompact), and "
+           "then the child keeps type, count and its key-value content extensionally while adopting the shared key order (compact_child_shape, "
+           "compact_child_extensional) - the property's sole exception. Kind-specific versions incl. inlined children, wrappers and the shared "
+           "extra-data section. flags_truthful: the three header queries on the raw bytes give root / has-references / size-limited for EVERY slab, no "
+           "hypothesis. Trailing bytes are rejected for array and index slabs; the map data decoder accepts them (mdata_accepts_trailing, a fact about "
+           "the code). EXACT nesting bound: a register decodes iff its validator depth Slab.vdepth <= 32 (decodes_iff_depth_*, nesting_bound_tight_*: 15 "
+           "nested arrays / 7 maps decode, 16 / 8 do not). hypOK_iff, hyp_roundtrip_all: the Boolean check evaluated on every real slab decides the "
+           "hypotheses. SlabIdB.raw_roundtrip, storableDecode_spec: identifiers as bytes. TransEq.head_*: all of flag.go is translated from the Go AST and "
+           "proved equal to the model's header. Tie: streams codec, malformed -> codec, nested -> world: model-decode(Go bytes) and Go-decode(model bytes) "
+           "compared on every register, v0 forms, hypotheses and predicted depth on every ENC line. Oracles: Encode(Decode(r)) = r, flags vs content, "
+           "every container read back from a brand-new storage with its own type info. Quantifier: slabs the library produced; registers of other origin "
+           "are C19."),
+  "design_ref": "DESIGN.md 7/C07, 13",
+  "note": ("Trusted: as C06 plus Codec/Decode.lean (validated on ~50k registers per run incl. malformed ones) and the CBOR contract model. Observations: O9 "
+           "(values nested deeper than the caller's DecMode allows commit but do not reload: the depth hypothesis is exact and reproduced), O8 (257+ "
+           "extra-data entries fail as an error), O1 (re-encoding a slab decoded from a MUTATED register may panic: outside C07's quantifier)."),
+  "technique": "Lean 4 round-trip and fixpoint proof over byte-exact encoder / decoder models + translated header flags + register-level correspondence",
  },
  "C08": {
-  "text": "Proved in Lean for the value-level storage model: any two schedules of {commit (either kind), drop cache, commit+reopen} interleaved with the same client history yield the same observations, the same view and, after a final commit, the same ledger. Tie: storage correspondence; oracle: the same container histories under six schedules on the real code give equal observations, content, validity and registers. Container level: loading a container through Retrieve with arbitrary cache drops, preloads and other reads interleaved yields the same container (E2E.load_from_storage, scheduled_retrieve_is_fetch, and the map versions). The oracle also drops the cache while slabs are dirty. Partial: Go handles keep pointers; the theorems are about clients that re-fetch handles after a cache drop.",
-  "design_ref": "DESIGN.md 7/C08",
-  "note": "Trusted: as C15. Pointer aliasing between stale handles and the cache is not modelled (finding F2 territory).",
-  "technique": "Lean 4 simulation proof between maintenance schedules + schedule-differential oracle on the implementation",
+  "text": ("Proved in Lean for the storage state machine: C08.reload_is_identity (commit of either kind, cache drop, commit + reopen never change the view "
+           "of an owned identifier), schedule_independent_outcomes / _ledger: for EVERY client history whose stored slabs encode and ANY two maintenance "
+           "schedules interleaved with it, observations and views are equal and, after a final commit, so is the ledger. The encodability hypothesis is "
+           "necessary and is discharged for the three transcribed real codecs (keyedCodec*_storesEncodable, bytes_schedule_independent, "
+           "map_bytes_schedule_independent). Container level (E2E.array_history_under_schedules / array_ledger_under_schedules, E2EM.map_* twins): for "
+           "EVERY history of array or map operations with maintenance before every request, the container equals the schedule-free run, answers follow "
+           "the sequence / dictionary specification, loading through Retrieve with arbitrary interleaved reads returns it, and the committed registers "
+           "do not depend on the schedule. Tie: storage -> storage. Decided on the implementation (model-free): cache (maintenance schedules incl. cache drops "
+           "while slabs are dirty; observations, content, Verify and final registers equal), compact (same-typed inlined compact maps under commit + "
+           "drop / reopen), aliasdrop (slabs mutated in place after a commit, then write set and cache dropped). Not covered by theorem: Go handles "
+           "that keep pointers across a cache drop - the theorems are about clients that re-fetch handles."),
+  "design_ref": "DESIGN.md 7/C08, 13",
+  "note": ("Trusted: as C15. Value-level model: pointer aliasing between stale handles, write set and cache is not modelled (F2 family for handles; observation "
+           "O7: DropDeltas ALONE does not revert slabs mutated in place - the property's claim, write set AND cache dropped, holds and is checked). The "
+           "byte-identical-ledger clause excludes compact maps, as the property text does."),
+  "technique": "Lean 4 simulation proof between maintenance schedules (storage and container level, real codecs) + schedule-differential oracle on the implementation",
  },
- "C16": {
-  "text": "Proved in Lean for a message-passing model of the three worker pools: under every scheduler choice sequence the results are a permutation of the jobs, the result channel never exceeds its capacity, the pool terminates under a fair schedule, and commit/preload with any worker count equal the sequential run. NOT proved: Go memory-model races, preemption, sync.Pool internals - exercised with the race detector and concurrent independent clients compared with running alone.",
-  "design_ref": "DESIGN.md 7/C16",
-  "note": "Partial by nature (runtime behaviour). Premise workerClosuresWriteFree regenerated from source.",
-  "technique": "Lean 4 proof over a message-passing pool model + race-detector and concurrent-vs-alone differential runs",
+ "C09": {
+  "text": ("Single containers: C09.insert/set/remove_effects_complete, pop_releases_all, tree_ownership, allocated_ids_fresh (arrays) and the C09Map.* twins "
+           "(maps, incl. external collision-group slabs) - for EVERY "
+           "legal T and every tree satisfying the invariant, the SlabStorage calls of an operation are a complete account of how the slab tree changed "
+           "(changed or new slabs stored, departed slabs removed, nothing else touched), emptying releases every slab but the rewritten root, no slab "
+           "is owned twice, all slabs share the owner address, allocated IDs are fresh. Large-value slabs: C09R.* / C09Map.refs_* (every reference "
+           "element owns a distinct live slab; an overwritten or removed one is handed back and no longer referenced). History level against the storage "
+           "state machine with the caller's disposal (E2ED.heap_exact_after_disposal, E2EMD.heap_exact_run, C09Map.history_heap_exact_every_prefix): "
+           "after EVERY history the storage view is exactly the container's slabs plus the large-value slabs of its current elements; "
+           "pop_then_dispose_leaves_only_root. Nested containers (C09W.*, 20): the effect log of EVERY operation of the nested-container model - "
+           "inline <-> standalone transitions, the whole parent-callback chain, pops through handles, disposal - is a complete account of the heap "
+           "(standalone trees + group slabs of inlined maps); world_heap_exact along any history; heap_ownership, child_referenced_once. Identifier "
+           "level: SlabIdB.next_*, TransEq.SlabIndex_Next_eq_model (translated from Go; the wrap at 2^64-1 is exhibited). Graph "
+           "characterisation: C20. Tie: array, persist, arrmeta -> array, mapcollide, mapmeta -> map, nested -> world, batch -> "
+           "batch, slabid -> slabid: net storage effect compared per operation. Oracle: CheckStorageHealth with the exact root count; storage empty "
+           "after deep removal."),
+  "design_ref": "DESIGN.md 7/C09, 13",
+  "note": ("Known finding F6 (printed as KNOWN-FINDING, exit 0): a REJECTED bulk build (NewMapFromBatchData / NewArrayFromBatchData returning an error) leaves the "
+           "slabs it had already stored in the write set; the next commit writes them as orphan registers - 'nothing else remains' fails; not a small "
+           "repair. The premise 'the caller disposes of returned values' is implemented by the harness (DSP lines) and by disposal steps in the models. "
+           "Trusted: as C01 / C02 / C10. Observation O2: Set(i, the container already stored at i) cannot honour the disposal contract and is outside the "
+           "quantifier."),
+  "technique": "Lean 4 proof of effect-log completeness (single containers by induction on tree depth, nested containers per World operation, histories against the storage model) + effect-log correspondence + storage health oracle",
  },
- "C17": {
-  "text": "Lean theorems over the executable models of NewArrayFromBatchData / NewMapFromBatchData (element loop, close-out, tail lend-or-merge at every level, index levels, root re-basing), CopyNonRefSimple (arrays and maps, standalone and inlined sources) and the byte-slice conversions: the build always succeeds with the input as content, the full structural invariant (ArrInv / MapInv) and fresh slab IDs, for EVERY element stream, legal threshold and depth; the map build keeps seed, count and order, rejects unsorted, duplicate and seed-0 streams and accepts every valid one; copy is offered iff single slab of plain values, then succeeds with equal content, re-based size, the invariant and fresh IDs; bytes round-trip. Tie: every build / copy / conversion of the batch stream replayed on the model (observations, storage effects, dumps of all slabs) + model-free oracles (content, Verify*, serialization, health with exact root count, disjoint slab sets, mutate-one-check-other).",
-  "design_ref": "DESIGN.md 7/C17, 13.3",
-  "note": "batch_map_content gives content as a permutation in general (exact order proved without first-level collisions; compared exactly by the correspondence); nested containers as elements of copy sources are covered by the model-free oracle only; batch_array_inv assumes at most 2^32-1 values.",
-  "technique": "Lean 4 proofs (content, invariant, freshness, copyability iff) over executable models of the batch builders, copy and byte conversion + differential replay of the implementation's builds",
+ "C10": {
+  "text": ("Deciding theorems, no hypothesis on the state (from the empty world, ANY interleaving of requests through handles the client holds, any "
+           "depth, array and map ancestors, lookups, pops, disposal, reopen): C10Hist.history_invariant - the global invariant WorldOk' "
+           "holds and every held handle is current; history_refines / history_read_through - the contents reached through the outermost containers are the "
+           "sequence / dictionary specification's at every depth (a child mutation is visible through the parent), every element referring to a child "
+           "carries the size of the child's CURRENT form, and the child is inline EXACTLY when its single slab fits the slot's budget after wrappers; "
+           "history_progress / history_no_internal_failure. WorldOk' = every container "
+           "well-formed (ArrInv / MapInv in standalone or inlined form), parent size bookkeeping in sync, unique reference, index and closure "
+           "bookkeeping consistent, containment acyclic; per operation C10W.worldOk'_*_all (list-level result, all current handles stay current). C10.value_id_stable, storable_inline_decision, handed_back_is_standalone: identity unchanged "
+           "across both transitions. 'Persisted by the next commit': C10Persist.history_persisted - history with commits anywhere, commit, reopen shows "
+           "exactly the heap of the reopened world. Tie: nested -> world (observations, effects, nested dumps "
+           "incl. collision-group slabs of inlined maps; after every step each handle's parent callback and each array's mutableElementIndex "
+           "compared with the model's), slabid -> slabid, dualhandle (model-free). Oracles: deep read-back, Verify of the outermost container, "
+           "Inlined() == Inlinable(budget), reload. NOT covered: more than one live handle OBJECT per container - there the property fails "
+           "on the real code (known findings F2 / F2b / F2c, C10W.stale_handle_breaks)."),
+  "design_ref": "DESIGN.md 7/C10, 13.4 (F2, F2b, F2c, F3), 13",
+  "note": ("Level: proof for ONE current handle per container (a handle object captured by the callback of a detached child counts as live). KNOWN-FINDINGs F2, F2b, "
+           "F2c (per-handle root pointer / positional bookkeeping not shared between handle objects) are reproduced on every run by the dualhandle stream and "
+           "exit 0. Fixed: F3 (PopIterate through a child handle did not notify the parent), F4. C10Persist: steps creating no large-value slab; the deep "
+           "content of a same-size mutation of an inlined child in a multi-slab parent is under the explicit hypothesis DeepStored (probe_deepstored). Maps "
+           "in the World model use 4 digest levels. Trusted: World.lean transcription (validated by correspondence), Lean kernel, harness."),
+  "technique": "Lean 4 invariant + refinement proof over a model of the parent-callback protocol for every history + effect-log / storage composition + nested-history correspondence; known-finding signatures for dual handles",
  },
- "C20": {
-  "text": "Lean theorems prove, for EVERY heap of loaded slabs, that the (repaired) health check accepts exactly the healthy heaps and returns the true root set (health_sound, health_complete), that each of the four corruption kinds applied to any healthy heap at any slab is rejected, and that the all-child-references query is exact on healthy heaps. The model is tied to CheckStorageHealth/GetAllChildReferences by replaying heaps dumped from real storages (healthy and corrupted) and comparing outcomes. The defect this check found on the pinned tree (dangling reference to a slab removed through the storage passes the check) was repaired by a fix: commit; see known_findings.txt.",
-  "design_ref": "DESIGN.md 7/C20, 8 (F1)",
-  "note": "Trusted: Lean kernel; HealthSpec.lean (definition of Healthy); harness heap dump (hooks VerifDeltas/VerifCache + ChildStorables traversal); storages are explored with all slabs loaded, as the property states.",
-  "technique": "Lean 4 soundness+completeness proof of the health-check algorithm against a graph specification + heap-level correspondence with the implementation",
+ "C11": {
+  "text": ("Proved in Lean over the nested-container model under WorldOk' (which C10Hist.history_invariant gives for every history): C11.detached_by_arrRemove / "
+           "_arrSet / _mapRemove / _mapSet - after the detaching operation the removed or overwritten container is a detached root (live, "
+           "referenced by nobody) with a current handle, and its former parent does not lie below it; "
+           "C11.detached_arrInsert / _arrSet / _arrRemove / _mapSet / _mapRemove / _setType / _arrPopKeep / _mapPopKeep - ANY mutator, with plain or "
+           "child values, through a handle to the detached container or to anything nested in it keeps the invariant, has the list-level result, leaves it "
+           "a detached root, and leaves EVERY container outside its subtree - the former parent in particular - with the identical table entry (content, "
+           "sizes, form). overwritten_child_leaves_parent_unchanged, "
+           "map_overwritten_*, removed_*: the child is handed back standalone with unchanged value ID and content, the slot's index / key is forgotten, so a later notification from the old handle changes nothing but that "
+           "handle's own callback, also when ANOTHER container now sits in the same slot (set_forgets_index, remove_forgets_index, mapRemove_key_absent, "
+           "mapSet_key_reoccupied). detached_root_lifecycle: it can be reopened, disposed of, or re-attached to any container not below it. Popped-and-kept "
+           "children: C10W.kept_child_*. replaced_slot_leaves_parent_unchanged is vacuous on valid worlds (replaced_slot_hyps_contradict_invariant; kept, "
+           "labelled). Tie: nested -> world with detach / replace by another container / mutate detached / re-attach; hinfo and mutIdx vs the real "
+           "parentUpdater and mutableElementIndex after every step. Oracle: slabs of every OTHER family of containers unchanged by every operation; "
+           "detached containers read back and pass Verify as roots."),
+  "design_ref": "DESIGN.md 7/C11, 13.4 (F2c), 13",
+  "note": ("One current handle per container, as C10. Known finding F2c (filed under C10, touches C11): a child detached from a MAP through handle object A, after the "
+           "map was re-read through its own parent and collapsed to one slab, fails with SlabNotFound AFTER the mutation was applied; the nested stream "
+           "leaves such a family alone (staleClosure) and the dualhandle stream reproduces it. Persisted form of the former parent: by C10Persist + this "
+           "frame property, and by the reload oracle. Trusted: World.lean transcription, Lean kernel, harness."),
+  "technique": "Lean 4 frame proof over the parent-callback model (every mutator below a detached root leaves everything outside its subtree identical) + detach / replace differential histories",
  },
- "C15": {
-  "text": "Lean theorems (inv_reachable, step_refines, retrieve_eq_view, commit_makes_base_eq_view, dropAll_reverts, observers_consistent, temp_never_in_ledger) prove that the storage state machine refines the write-back-overlay specification for EVERY finite operation sequence over any identifier universe, incl. faulty commits and re-creation. The model is tied to PersistentSlabStorage by replaying every generated history on both and comparing each observation, each ledger call log and, after every step, where every identifier is served from.",
-  "design_ref": "DESIGN.md 7/C15, Appendix C",
-  "note": "Trusted: Lean kernel; statement of the theorems; the correspondence harness (differential testing, bounded by its generators); value-level model (no pointer aliasing); BaseStorage is a map whose failing calls have no effect; the codec round-trip hypothesis (RoundTrip) is discharged for the real byte format on array slabs (E2E.keyed_codec_roundtrip, bytes_history_no_encode_failure); for other slab kinds it is C07's round-trip theorems.",
-  "technique": "Lean 4 refinement proof (state machine -> overlay spec) + model/implementation trace correspondence",
+ "C12": {
+  "text": ("C02's theorems hold for EVERY digest function, hence for arbitrary collisions on any level and on all levels at once (dictionary semantics, "
+           "MapInv incl. the shapes of inline groups, external groups and last-level lists, preserved by insert / update / remove). Additionally "
+           "C12.limit_refuses_new_key: for every map satisfying MapInv, a key that is NEW and whose first-level group already holds more than the "
+           "configured limit is refused with the collision-limit error (Set returns an error, so there is no new state); limit_allows_update_and_room: an "
+           "update of a present key, or a new key with room, is ALWAYS accepted; order_canonical: enumeration in ascending lexicographic digest order; "
+           "full_collisions_keep_insertion_order / new_colliding_key_is_appended: a new key goes behind every key with the same digest vector. Group "
+           "shapes as STEP theorems (the code never re-inlines a shrunken external group): export_exactly_when_oversized + SetKindRel.ext_iff (one Set "
+           "changes at most one first-level element; a group born or updated by it is external iff prefix + size exceeds the element limit), "
+           "no_reinline_on_shrink (after Remove an external group stays external or collapses to its last single element). Dig.*: the real 4-level "
+           "digester instantiates the digest-function hypothesis. Tie: mapcollide, mapspill -> map (adversarial tables over 1-4 levels, limits 0..3 and "
+           "255, groups grown to the element limit -1 / +0 / +1, every run must see a refusal), digester -> digester. Oracle: Go map + VerifyMap + no "
+           "storage effect after a refusal. Not covered: the bulk build does not apply the limit (C17.batch_map_may_exceed_limit; argued outside the text)."),
+  "design_ref": "DESIGN.md 7/C12, 13",
+  "note": ("Trusted: as C02; the limit is read per run through the verif hook. Observation O4 (C12 / C18 border): when a group is at the limit, hkeyElements.Set "
+           "probes it and drops every error but KeyNotFound, so a FAILING caller comparator or storage read admits a new colliding key past the limit; C12 "
+           "quantifies over digest assignments with working callbacks, so it is counted on every run, not raised. O10: digesters with more than 8 levels."),
+  "technique": "Lean 4 proof over the collision-group model for all digest assignments (limit, order, export / collapse step relations) + adversarial-digest correspondence",
+ },
+ "C13": {
+  "text": ("Proved in Lean. Arrays, for every legal T and every array satisfying ArrInv: read-only and mutable iteration = the element list in index order and "
+           "agree with Get at every index (C13.arr_ro_mut_iter_eq_toList); range iteration = the slice, and invalid ranges get the exact error kind "
+           "(arr_range_iter_eq_slice, bad_range_rejected); loaded-value iteration = the list when everything is loaded and a Sublist for ANY set of loaded "
+           "slabs and ANY tree; bulk pop = the reverse; overwriting the current element during mutable iteration yields the original list once, no skip, "
+           "no repeat, invariant kept (arr_mut_iter_overwrite_current_no_skip_no_repeat). Maps, every digest function: map_order_canonical (ascending "
+           "lexicographic digest order); map_lookup_and_successor; mutable / read-only / keys / values / loaded iterations = toList, loaded subset a "
+           "Sublist, pop = reverse; read-only iteration needs the clause MapIdsOk, discharged after EVERY history from NewMap "
+           "(map_ro_iter_history); map_full_collisions_in_insertion_order, map_enumeration_determined: along every history the enumeration is the "
+           "insertion order sorted stably by digest vector. Iterator OBJECTS (C13Obj.*, *_iterator_object_*): the Go iterator state machines "
+           "with Next / NextKey / NextValue equal the structural traversal; a callback answering stop after k elements yields take (k+1) of the full run; "
+           "Next after the end stays nil. Tie: iter -> iter (every flavour on fresh and "
+           "live handles, 8 loaded subsets read from the real storage per round, early stops, objects driven call by call), array -> array, mapcollide "
+           "-> map. Oracle: pairwise agreement of all flavours and with lookups, exactly-once, in-order subsequence. NOT by theorem: mutation of a NESTED "
+           "container during iteration (8 model-free programs per run; C10's stream)."),
+  "design_ref": "DESIGN.md 7/C13, 13",
+  "note": ("Partial: in-iteration mutation of nested containers is oracle-only. Loaded-value iterators are parameterised by a predicate 'slab is loaded'; the harness "
+           "reads the real loaded set through the verif hooks. Trusted: Array/Iter.lean, Map/Iter.lean, IterObj.lean transcriptions (validated by the iter "
+           "stream), Lean kernel, harness. Keys up to the inline key limit."),
+  "technique": "Lean 4 proofs over transcribed iterator state machines (structural recursion / bounded fuel, all loaded sets, all early-stop positions) + iterator-output correspondence with partial loads",
  },
  "C14": {
-  "text": "Lean theorems prove for both commit functions, every fault plan, every key/arrival order: a failing ledger call is reported, the view never changes, an identifier leaves the write set only when the ledger holds its latest value, and any sequence of failed attempts followed by a successful one leaves the ledger equal to a single fault-free commit (retry_converges); at container level, after any sequence of failing commits the in-memory view still represents the container and a successful retry followed by a reopen returns it (E2E.failed_commit_then_retry, map version). Tie and oracle as C15 with injected ledger faults.",
-  "design_ref": "DESIGN.md 7/C14, Appendix C",
-  "note": "Trusted: as C15. Worker pools are abstracted to arrival order (workers only read and encode: generated fact workerClosuresWriteFree).",
-  "technique": "Lean 4 invariant/induction proof over commit fault plans + trace correspondence with fault injection",
+  "text": ("Lean theorems for BOTH commit functions, every fault plan (any set of failing ledger-call positions), every key / arrival order, any codec: "
+           "C14.failed_commit_reports_error (a failing call that is reached makes the commit return the external error; commit_fails_if_fault_reached / "
+           "commit_succeeds_if_no_fault_reached give the exact condition and the number of calls issued), failed_commit_keeps_view (the view of EVERY "
+           "identifier is unchanged and the storage invariant kept), failed_commit_pending_is_unwritten (an identifier leaves the write set only when the "
+           "ledger holds its latest value), failed_commit(s)_registers_old_or_new (every register is the old or the target value, never a third), "
+           "retry_converges: ANY sequence of failed attempts of either kind followed by a fault-free one returns no error and leaves the ledger equal, "
+           "register by register, to a single fault-free deterministic commit. Crash variants (C14Crash): crash_after_failed_commit_exact, "
+           "retry_until_success_then_reopen (the reopened storage shows the pre-commit view of every owned identifier). Container level: "
+           "E2E.failed_commit_then_retry and the map version - after any failing commits the in-memory view still represents the container and a "
+           "successful retry + reopen returns it. Tie: storage -> storage; every commit of the stream draws, with probability growing with the write "
+           "set, up to 2 failing positions, a commit kind and a worker count in {1,2,3,8,64}; observations, ledger call logs and where each identifier "
+           "is served from compared on every line. Oracle: ledger call log vs pending set, Deltas() after failure, category External. Not covered: a "
+           "Ledger whose failing call has a partial effect (caller contract)."),
+  "design_ref": "DESIGN.md 7/C14, Appendix C, 13",
+  "note": ("Trusted: as C15. Worker pools are abstracted to arrival order here (workers only read and encode: regenerated fact workerClosuresWriteFree; the explicit "
+           "channel model is C16's). The theorems take NoEncodeFailure where a commit must succeed; discharged for the real codecs in C03 / C15."),
+  "technique": "Lean 4 invariant / induction proof over commit fault plans and attempt sequences + trace correspondence with injected ledger faults",
+ },
+ "C15": {
+  "text": ("Lean theorems: the model of PersistentSlabStorage (write set, read cache, ledger, allocation counters) refines the write-back-overlay "
+           "specification for EVERY finite operation sequence over any identifier universe and any codec with the round-trip property: C15.inv_reachable, "
+           "step_refines (per operation: store / remove / retrieve / retrieve-if-loaded / cache-bypassing retrieve / both commits with fault plans / drop "
+           "deltas / drop cache / preload / re-creation, incl. the undefined-identifier refusals), history_refines(_init) (whole histories against "
+           "Overlay.Run), clean_history_refines (fault-free: equality with the functional spec), retrieve_eq_view, commit_makes_base_eq_view (ledger = view "
+           "on owned identifiers, owned write set empty, temporary entries kept and never written), dropAll_reverts (write set AND cache dropped = last "
+           "commit), observers_consistent, deltas_size_is_sum, size_after_store, sizes_after_commit (counts, sizes, has-unsaved-changes per owner, "
+           "is-loaded), temp_never_in_ledger, genID_fresh. The round-trip hypothesis is discharged for the transcribed real byte format on array and map "
+           "slabs (E2E.keyed_codec_roundtrip, map_keyed_codec_roundtrip, *_history_no_encode_failure). Byte-level storages (SlabIdB.*): register key "
+           "'$' + index injective; LedgerBaseStorage, InMemBaseStorage, BasicSlabStorage and its iterator refine finite maps; an empty register reads as "
+           "absent and the codec never writes one. Tie: storage, storageexh -> storage (every sequence of length 4, thorough 5, over a 22-operation "
+           "alphabet, plus random histories with failing ledger calls), slabid -> slabid: every observation, ledger call log, counter and where each "
+           "identifier is served from compared after every step. Oracle: Go-map overlay; aliasdrop (model-free, real containers mutated in place)."),
+  "design_ref": "DESIGN.md 7/C15, Appendix C, 13",
+  "note": ("Trusted: Lean kernel; statements; correspondence harness (bounded by its generators); the Ledger behaves as a map on non-empty registers and a failing call has "
+           "no effect. VALUE-LEVEL model, observation O7: containers mutate slab objects in place and the cache holds the same objects, so on the real code "
+           "RetrieveIgnoringDeltas of a committed slab mutated since returns uncommitted content and DropDeltas ALONE does not revert the view; the model "
+           "answers 'committed' there and its streams store immutable slab versions. The property's claim (write set AND cache dropped) holds on the code "
+           "and is checked by aliasdrop on every run."),
+  "technique": "Lean 4 refinement proof (storage state machine -> write-back overlay, per step and per history) + bounded-exhaustive and random trace correspondence",
+ },
+ "C16": {
+  "text": ("Proved in Lean for message-passing models of the three worker pools (FastCommit, NondeterministicFastCommit, BatchPreload). Abstract pool "
+           "(C16.pool_results_perm / _bounded / pool_terminates): under EVERY scheduler choice sequence the results are a permutation of the jobs, nothing is "
+           "lost or duplicated, a fair schedule finishes. Explicit channel model CommitPool.lean (jobs / results / done channels, early return on an encode "
+           "error, cleanup) for every schedule and every worker count >= 1: no_send_on_closed_channel, send_never_blocks (results never exceed the channel "
+           "capacity), no_deadlock with a decreasing measure, fastCommit / nondetCommit_pool_terminates, results_sound / _complete, encode_error_reported. "
+           "Sequential equality: parallel_commit_sequential_equal and fastCommitPoolX_eq_fastCommit (state, error and call log of the parallel commit = "
+           "the one-goroutine commit, any schedule), fastCommitPoolX_encode_error_first, parallel_preload_sequential_equal (cache, write set, ledger and "
+           "view for any arrival order, when every register decodes). Process-wide state: Dig.* and Buf.* - every multi-user history of the digester and "
+           "buffer pools with arbitrary pool choices gives each holder a fresh object's results; negative theorems for use after put, double put, a kept "
+           "Bytes() slice; regenerated facts: settings are written only by init, package state is settings + pools, channel capacities = job count, "
+           "wg.Wait before close, worker closures write-free. NOT proved (runtime): data races in the Go memory model, preemption, sync.Pool internals - "
+           "streams parallel, parfault, storage, digester also run in a -race build; concurrent clients vs alone; failing commits / preloads in child "
+           "processes under a watchdog. storage -> storage, digester -> digester."),
+  "design_ref": "DESIGN.md 7/C16, 13.4 (F5, O6), 13",
+  "note": ("Level: proof for the pool MODELS, runtime validated. Known finding F5 (KNOWN-FINDING, exit 0): a FAILING parallel BatchPreload (>= 11 ids, one register "
+           "undecodable) leaves a schedule-dependent set of slabs in the read cache - contradicts 'same cache as one goroutine' for the failing case; the "
+           "preload theorem is for the succeeding case. Observation O6: 0 workers never return, -1 panics (zero_workers_stuck); 'any number' is read as "
+           ">= 1. Facts are syntactic (go/ast)."),
+  "technique": "Lean 4 proof over message-passing pool models (safety, deadlock freedom, sequential equality for every schedule) + pool refinement + race-detector and concurrent-vs-alone differential runs",
+ },
+ "C17": {
+  "text": ("Lean theorems over executable models of NewArrayFromBatchData / NewMapFromBatchData (element loop, close-out, tail lend-or-merge, "
+           "index levels, root re-basing), CopyNonRefSimple (standalone and inlined sources) and the byte-slice conversions. Arrays: for "
+           "EVERY legal T and EVERY element stream the build succeeds with the input as content (batch_array_content), and for up to 2^32-1 values of "
+           "size >= 1 the result satisfies the full invariant ArrInv with fresh slab IDs under the given address (batch_array_inv, _ids_fresh). Maps, for "
+           "every digest function: the build keeps seed, type, count and order (batch_map_seed_count_order), rejects unsorted, duplicate and seed-0 "
+           "streams and accepts EVERY sorted duplicate-free one (batch_rejects_*, batch_map_loop_accepts), content = the input (exact order without "
+           "first-level collisions, a permutation fixed by the invariant's order clauses otherwise), MapInv / MapInvI and fresh IDs (batch_map_inv, "
+           "_invI, _ids_fresh, batch_map_then_set). Copy: offered iff single slab of "
+           "plain non-reference values (can_copy_iff_*), succeeds iff offered (copy_succeeds_when_offered_*), equal content / type / count, re-based "
+           "size, invariant, slab IDs fresh and disjoint from the source's (copy_*, result_ids_fresh_*, copy_of_inlined_*). Bytes: bytes_roundtrip, "
+           "bytes_accepts_iff, bytes_ids_fresh. Seeds (Dig.*): the copy uses the source's seed, the build the given one, other handles are unaffected. "
+           "Tie: batch -> batch (array builds up to 6000 elements, 40000 in the thorough tier, at the critical lengths that leave "
+           "underfull / full last slabs at every level; map builds + rejected streams; copy scenarios; conversions): observations, storage "
+           "effects and dumps of all slabs identical. Oracles: content, Verify*, health with exact root count, disjoint slab sets, "
+           "mutate-one-check-other. Nested containers in copy sources: oracle only."),
+  "design_ref": "DESIGN.md 7/C17, 13",
+  "note": ("batch_map_content gives a permutation in general (exact order compared by the correspondence). NewArrayFromBatchData does not check the element-count limit "
+           "(hypothesis of batch_array_inv). Related: a REJECTED build leaves slabs behind - known finding F6, filed under C09; the bulk build does not apply "
+           "the collision limit (C17.batch_map_within_limit_of_source / batch_map_may_exceed_limit, counted as an observation, argued outside C12 / C17). "
+           "'Shares no storage': fresh and disjoint IDs are theorems, independence under later mutation is the mutate-one-check-other oracle. Trusted: "
+           "Array/Batch.lean, Map/Batch.lean, Bytes.lean transcriptions, Lean kernel, harness."),
+  "technique": "Lean 4 proofs (content, invariant, freshness, copy offered iff) over executable models of the batch builders, copy and byte conversion + differential replay of the implementation's builds",
+ },
+ "C18": {
+  "text": ("Proved in Lean. Categories: C18.arg_error_category / model_error_categories (by decide over the table REGENERATED from errors.go: index / slice out of "
+           "bounds, invalid slice index, key not found = User; collision limit, undefined identifier, slab not found = Fatal), callback_failure_is_external "
+           "(an uncategorised error of a caller-supplied component becomes External, categorised ones pass through, wrapping idempotent). No trace: "
+           "arg_checks_precede_effects - over the regenerated statement order of about 50 request-level Go functions (Gen.argCheckPrefix), nothing but "
+           "reads, earlier checks and error exits precedes any refusal site; reject_leaves_no_trace, map_set / map_remove_reject_leaves_no_trace - "
+           "in-place programs (Reject.lean) transcribing the request paths in Go statement order, whose state SURVIVES an error: for every state, with NO "
+           "invariant assumed, an argument error leaves array / map, allocation counter and effect log equal (counter-model: "
+           "s06_program_leaves_a_trace); inplace_request_agrees, map_*_inplace_agrees (same result as the functional model). "
+           "rejected_request_writes_nothing, history_with_rejections_commits_same_registers (+ map): run against the storage state machine, the history "
+           "with its refused requests leaves the same write set and ledger as the served requests alone. reject_is_noop / "
+           "history_with_rejections_same_state hold by construction (kept, labelled). Tie: array -> array, mapcollide -> map, nested -> world (EFF - and "
+           "an unchanged dump after every refused request, also through nested handles at any depth); callbackfail and rejectpair decide the callback "
+           "and undefined-identifier cases on the implementation: errors.As category, no SlabStorage call, tree and write-set keys unchanged, ledgers "
+           "byte-identical with and without the rejected requests."),
+  "design_ref": "DESIGN.md 7/C18, 13.4 (O4, O5), 13",
+  "note": ("Trusted: the extractor's reading of errors.go and of the statement order (go/ast; classification of statement kinds in Props/C18Order.lean), cross-checked by "
+           "errors.As on every error the harness sees. Ancestors of a nested handle: World operations return an error without a world (by construction) + "
+           "the streams. Observations, counted not raised: O4 (a failing comparator / storage read inside the collision-limit probe is swallowed and the key "
+           "admitted), O5 (a storage read failing AFTER the lookup part of a Remove is reported External but leaves the removal half applied; the property "
+           "speaks of failures during a lookup). Range iterators and callback categories: order fact + streams, no in-place program."),
+  "technique": "Lean 4 proof (decide over regenerated error table and statement order; no-trace theorems over in-place request programs) + fault-injection and with / without-rejections differential runs",
+ },
+ "C19": {
+  "text": ("Proved in Lean for ALL byte strings and any slab ID: C19.decode_never_panics - the transcribed DecodeSlab (dispatch, all seven slab kinds in both "
+           "format versions, inlined arrays / maps / compact maps, type-info references, wrappers, extra data, slab IDs, the harness's storable "
+           "decoder) is a three-outcome function ok | error | panic in which every Go slice expression, fixed-offset read, index and make() carries "
+           "its bounds condition, and the panic outcome is unreachable; header_queries_total (+ ok_iff: they answer iff the input has >= 2 bytes); "
+           "termination by structural recursion, and the fuel of the nested decoders never decides (decodeSlab_fuel_irrelevant); alloc_linear: the slice "
+           "elements allocated by the decoder's own make() calls are <= 2 x input length (constant 1 is false once compact maps are decoded), "
+           "decodeBytes_copy_le_consumed for the library's byte copies; accessors_never_panic: ByteSize and ChildStorables, transcribed over a raw slab "
+           "representation with nil slots, do not panic on ANY slab the decoder returns (accessors_panic_exactly, nil_slot_panics show the monad has "
+           "teeth). TransEq.safeAdd2 / 3Uint32_eq_model: the overflow-checked additions are translated from the Go AST. Tie: malformed -> codec: outcome "
+           "class (ok + dump / error / panic) equal to the real DecodeSlab on about 22000 mutated and 24000 grammar-built registers per run (>= 30 % "
+           "accepted, enforced), 6000 header queries, the transcribed CBOR validator vs the library on 4000 inputs; malformedall (model-free): every "
+           "truncation and 60 mutations of registers of ALL kinds under recover + watchdog + allocation bound. NOT modelled: panics and allocations "
+           "inside the CBOR library and the Go runtime (recover + watchdog only)."),
+  "design_ref": "DESIGN.md 7/C19, 13.4 (O1), 13",
+  "note": ("Trusted: Codec/Decode.lean transcription; the CBOR library is modelled by its contract (prepareNext validates the complete next item), validated against the "
+           "library. That the Go decoders return only fully populated slabs is carried by the shape of the model's types, not by a theorem. Observation O1: "
+           "RE-ENCODING a slab decoded from a mutated register can panic (compact map with Count different from its elements); C19 names decoding, header "
+           "queries, ByteSize and ChildStorables, so it is counted on every run, not raised."),
+  "technique": "Lean 4 totality / no-panic / linear-allocation proof over a three-outcome decoder model + malformed-input differential runs under recover and watchdog",
+ },
+ "C20": {
+  "text": ("Lean theorems, heap level, for EVERY heap of slabs with distinct keys: C20.health_sound / health_complete - the (repaired) health check accepts "
+           "exactly the heaps that are Healthy in the graph sense (every reference resolves, every non-root referenced once, one owner per tree) and returns "
+           "the true root set and count; delete_referenced_fails, extra_unreferenced_fails (beyond the expected root count, the new slab referencing no "
+           "old root), double_reference_fails, foreign_owner_fails - each corruption applied to ANY healthy heap at ANY slab is rejected; allrefs_exact "
+           "(healthy heaps), allrefs_general (any acyclic heap: exactly the resolvable and the broken references reachable from the slab), "
+           "allrefs_diverges_iff (the model answers 'diverges' exactly on a cycle), check_order_independent (the verdict and, unless the run diverges, "
+           "the error kind do not depend on map iteration order). Storage level (Props/C20Storage.lean, on the C15 state machine): iterator_sound / "
+           "_skips_deleted / _exact (model of PersistentSlabStorage.SlabIterator), storage_check_is_heap_check, storage_complete; "
+           "array_histories_healthy / _accepted and the map twins: EVERY storage produced by a valid single-container history is Healthy and accepted by "
+           "iterator + check with the true roots; independent_containers_accepted for disjoint unions. Tie: health -> health: every heap and storage state "
+           "(write set, cache, ledger) dumped from real storages of five kinds, healthy and with each corruption, is run through the model; outcome "
+           "incl. the error kind, iterator yields and all-child-references compared. Oracles: construction-time roots, an independent graph walker "
+           "on a heap read by the harness's own register walker, the check that has to fire per corruption. With all slabs loaded, as the property "
+           "states."),
+  "design_ref": "DESIGN.md 7/C20, 13.4 (F1, O3), 13",
+  "note": ("Finding F1 FIXED: on the pinned tree the check accepted a storage whose referenced slab had been removed through the storage; repaired by a 7-line fix: "
+           "commit (known_findings.txt fixed: line); the model transcribes the repaired function. Observation O3: on a reference CYCLE CheckStorageHealth, "
+           "GetAllChildReferences and SlabIterator do not return; cyclic storages are outside the property's domain, the three calls are exercised under a "
+           "watchdog and the model answers 'diverges'. Trusted: Lean kernel; HealthSpec.lean (definition of Healthy); harness heap dump (own register walk, "
+           "cross-checked against ChildStorables); nested / mixed storages are covered by theorem at heap level only."),
+  "technique": "Lean 4 soundness + completeness proof of the health-check algorithm against a graph specification, lifted to the storage state machine and to container histories + heap- and storage-level correspondence",
  },
 }
